@@ -196,8 +196,9 @@ def write_for_run(
                 for var in input_settings.keys():
                     if var in spl:
                         line = line.replace(var, str(input_settings[var]))
-                        # remove found item from dict
-                        not_found.pop(var)
+                        # remove found item from dict (a variable may occur
+                        # on several lines)
+                        not_found.pop(var, None)
 
                 writefile.write(line)
     # check if we found all keys
